@@ -123,6 +123,86 @@ def _shared_tree(rng, kind, sp):
     raise ValueError(kind)
 
 
+def _slots(obj, path=()):
+    """Every fillable child position of a real tree as (path, getter, setter), found by an identity-safe walk
+    over the attributes of each primitive (deliberately NOT through the library's own `children`)."""
+    out = []
+    k = probes.base_kind(obj)
+
+    def add(name, get, put):
+        child = get()
+        out.append((path + (name,), get, put))
+        if child is not None:
+            out.extend(_slots(child, path + (name,)))
+
+    if k == "Bin":
+        for i in range(len(obj.values)):
+            add("values[%d]" % i, lambda i=i: obj.values[i], lambda v, i=i: obj.values.__setitem__(i, v))
+        for nm in ("underflow", "overflow", "nanflow"):
+            add(nm, lambda nm=nm: getattr(obj, nm), lambda v, nm=nm: setattr(obj, nm, v))
+    elif k in ("SparselyBin", "Categorize"):
+        if not obj.bins:
+            key = 3 if k == "SparselyBin" else "k3"
+            obj.bins[key] = obj.value.zero()
+        for key in list(obj.bins):
+            add("bins[%r]" % (key,), lambda key=key: obj.bins[key], lambda v, key=key: obj.bins.__setitem__(key, v))
+        if k == "SparselyBin":
+            add("nanflow", lambda: obj.nanflow, lambda v: setattr(obj, "nanflow", v))
+    elif k in ("CentrallyBin", "IrregularlyBin", "Stack"):
+        for i in range(len(obj.bins)):
+
+            def put(v, i=i):
+                b = list(obj.bins)
+                b[i] = (b[i][0], v)
+                obj.bins = tuple(b) if isinstance(obj.bins, tuple) else b
+
+            add("bins[%d]" % i, lambda i=i: obj.bins[i][1], put)
+        add("nanflow", lambda: obj.nanflow, lambda v: setattr(obj, "nanflow", v))
+    elif k == "Fraction":
+        add("numerator", lambda: obj.numerator, lambda v: setattr(obj, "numerator", v))
+        add("denominator", lambda: obj.denominator, lambda v: setattr(obj, "denominator", v))
+    elif k == "Select":
+        add("cut", lambda: obj.cut, lambda v: setattr(obj, "cut", v))
+    elif k in ("Label", "UntypedLabel"):
+        for key in list(obj.pairs):
+            add("pairs[%r]" % key, lambda key=key: obj.pairs[key], lambda v, key=key: obj.pairs.__setitem__(key, v))
+    elif k in ("Index", "Branch"):
+        for i in range(len(obj.values)):
+
+            def put(v, i=i):
+                vals = list(obj.values)
+                vals[i] = v
+                obj.values = tuple(vals)
+                if k == "Branch":
+                    setattr(obj, "i%d" % i, v)
+
+            add("values[%d]" % i, lambda i=i: obj.values[i], put)
+    return out
+
+
+def _generic_shared(rng, tier, i):
+    """A legitimate tree from a spec, then one fresh leaf installed at two unrelated positions."""
+    for _ in range(30):
+        _, sp = C.pick_spec(rng.randrange(600) if rng.random() < 0.7 else 10**9, rng, tier, {"flavours": ("lambda", "def")}, "c16")
+        if sp["k"] in S.CONTAINERS:
+            break
+    root = S.build(sp)
+    slots = _slots(root)
+    if len(slots) < 2:
+        return None
+    for _ in range(40):
+        (p1, g1, s1), (p2, g2, s2) = rng.sample(slots, 2)
+        if p1[: len(p2)] == p2 or p2[: len(p1)] == p1:
+            continue
+        x = S.build(S.default_child(rng.choice(["Count", "Sum", "Bag:N", "Minimize"]), rng, {"flavours": ("lambda",)}))
+        # install the deeper one first so that neither assignment detaches the other position
+        s1(x)
+        s2(x)
+        if g1() is x and g2() is x:
+            return root, x, sp, "generic:%s+%s" % (p1[-1].split("[")[0], p2[-1].split("[")[0]), "/".join(p1) + " & " + "/".join(p2)
+    return None
+
+
 SHARE_KINDS = [
     "siblings:Label",
     "siblings:UntypedLabel",
@@ -147,6 +227,8 @@ def _positive(i, rng, tier):
     hg = env.hg()
     from histogrammar.defs import ContainerException
 
+    if i % 3 == 2:
+        return _positive_generic(i, rng, tier)
     kind = SHARE_KINDS[i % len(SHARE_KINDS)]
     ck = S.CHILD_KINDS[(i // len(SHARE_KINDS)) % len(S.CHILD_KINDS)]
     sp = S.default_child(ck, rng, {"flavours": ("lambda",)}) if rng.random() < 0.7 else S.gen_spec(rng, 2, {"flavours": ("lambda", "def")})
@@ -198,6 +280,50 @@ def _positive(i, rng, tier):
         "counters": counters,
         "sets": {"share_kinds": {kind}},
         "sample": {"kind": "shared node", "sharing": kind, "shared_subtree": S.describe(sp), "path": path},
+    }
+
+
+def _positive_generic(i, rng, tier):
+    from histogrammar.defs import ContainerException
+
+    g = _generic_shared(rng, tier, i)
+    if g is None:
+        return {"digest": None, "nontrivial": False, "failures": [], "counters": {"generic_not_constructible": 1}, "sets": {}}
+    root, shared, sp, kind, where = g
+    path = "numpy" if (i // 3) % 2 else "row"
+    failures = []
+    counters = {"shared:generic": 1, "path:" + path: 1}
+    wit = {"sharing": kind, "positions": where, "tree": S.describe(sp), "path": path}
+    rec = S.gen_record(rng, S.critical_values(sp), {"cat_none": False})
+    for attempt in (1, 2):
+        before = _snapshot(root)
+        raised = None
+        try:
+            if path == "row":
+                root.fill(rec, 1.0)
+            else:
+                root.fill.numpy(B.Batch(B.columns([dict(rec), dict(rec)]), "dict").data)
+        except Exception as e:  # noqa: BLE001
+            raised = e
+        counters["fills_on_shared_trees"] = counters.get("fills_on_shared_trees", 0) + 1
+        after = _snapshot(root)
+        if raised is None:
+            failures.append(C.fail(None, "fill #%d (%s) of a tree with one object at two positions (%s: %s) did not raise" % (attempt, path, kind, where), attempt=attempt, **wit))
+            break
+        if not isinstance(raised, ContainerException):
+            # the walk precedes any use of the data: anything else means the check did not come first
+            failures.append(C.fail(None, "fill #%d (%s) of a tree with one object at two positions (%s: %s) raised %s instead of ContainerException: %s" % (attempt, path, kind, where, type(raised).__name__, str(raised)[:160]), attempt=attempt, **wit))
+            break
+        if after != before:
+            failures.append(C.fail(None, "the rejected fill #%d (%s, %s) changed state before raising" % (attempt, path, kind), attempt=attempt, **wit))
+            break
+    return {
+        "digest": C.digest("generic", sp, where, path),
+        "nontrivial": True,
+        "failures": failures,
+        "counters": counters,
+        "sets": {"share_kinds": {kind}},
+        "sample": {"kind": "shared node (generic positions)", "tree": S.describe(sp), "positions": where, "path": path},
     }
 
 
@@ -268,7 +394,7 @@ def run_case(i, rng, tier):
 
 def conclusive(agg):
     out = []
-    for k in SHARE_KINDS:
+    for k in SHARE_KINDS + ["generic"]:
         if not agg.counters.get("shared:" + k):
             out.append("sharing kind never tried: " + k)
     for p in ("row", "numpy"):
